@@ -826,6 +826,32 @@ func (e *Env) applySpec(sd *SpecDef, args []Val) Val {
 	if err != nil {
 		e.fail("spec %s: %v", sd.Name, err)
 	}
+	if sd.Rec && c.evalMode {
+		// concrete evaluation (counterexample replay): the recursive definition itself, unfolded by E-matching on
+		// ground terms as far as the concrete arguments need
+		f := sym("spec " + sd.Name)
+		var ss, as []string
+		for i := range sd.Params {
+			ss = append(ss, c.sortOf(ptys[i]))
+			as = append(as, args[i].T)
+		}
+		c.decl("(declare-fun " + f + " (" + strings.Join(ss, " ") + ") " + c.sortOf(rt) + ")")
+		if !c.declSet["recdef:"+f] {
+			c.declSet["recdef:"+f] = true
+			ne := &Env{c: c, names: map[string]Val{}, heap: e.heap, old: e.old, pkg: spkg, depth: e.depth + 1, what: "recspec " + sd.Name}
+			var bs, vs []string
+			for i, p := range sd.Params {
+				bn := sym(fmt.Sprintf("rs_%s", p.Name))
+				bs = append(bs, "("+bn+" "+c.sortOf(ptys[i])+")")
+				vs = append(vs, bn)
+				ne.names[p.Name] = Val{T: bn, Ty: ptys[i]}
+			}
+			body := ne.materialize(ne.tr(sd.Body), rt)
+			appl := app(f, vs...)
+			c.decl("(assert (forall (" + strings.Join(bs, " ") + ") (! (= " + appl + " " + body.T + ") :pattern (" + appl + "))))")
+		}
+		return Val{T: app(f, as...), Ty: rt}
+	}
 	if sd.Uninterp || sd.Rec {
 		// Recursive specs are unfolded at most twice ("fuel"): f (the user's symbol) is defined through f!1, f!1
 		// through f!0, and f!0 has no definition; all three denote the same function (synonym axioms). This keeps
